@@ -39,7 +39,7 @@ class Unpack:
         if self.entry is None:
             ctx.missing(rule, "unpacker entry", "no crate-local call whose result is stored in verified_claims")
             return
-        self.fns = [fx.view(n) for n in sorted(cg.reachable_from(self.g, [self.entry.name])) if not fx.fns[n].is_macro_generated() and n.startswith("verifier::")]
+        self.fns = [f for f in fx.subjects(sorted(cg.reachable_from(self.g, [self.entry.name]))) if not f.is_macro_generated() and f.name.startswith("verifier::")]
         self.vreach = cg.reachable_from(self.g, [vmodel.NEW])
         # digest lookups
         self.lookups = []  # (fn, bb, node)
